@@ -157,10 +157,11 @@ Qed.
 
 Ltac splits := repeat match goal with |- _ /\ _ => split end.
 
+(* projections of setters, reduced lazily (never unfold a setter that is not under a projection) *)
 Ltac sset :=
-  unfold set_cache, set_waiters, set_size, set_lent, set_opening, set_pq, set_pstate, set_sst, set_nsink, set_ncall,
-         set_gsize, set_gq, release_noop in *;
-  cbn [cache waiters size lent opening pq pstate sst nsink ncall gsize gq] in *.
+  cbn [cache waiters size lent opening pq pstate sst nsink ncall gsize gq
+       set_cache set_waiters set_size set_lent set_opening set_pq set_pstate set_sst set_nsink set_ncall
+       set_gsize set_gq release_noop] in *.
 
 Lemma incl_app_l {A} (a b : list A) : incl a (a ++ b).
 Proof. intros x H. apply in_or_app. now left. Qed.
@@ -195,33 +196,328 @@ Proof.
         -- rewrite Ec, zlen_app, zlen_cons in R2. pose proof (zlen_nonneg c'). lia.
         -- intros Hp Hw. destruct (R6 Hp Hw) as [_ E]. rewrite E in Ec. destruct dead; discriminate.
     + rewrite Ec. apply in_or_app. right. now left.
-  - specialize (Hn eq_refl). subst c'. rewrite app_nil_r in Ec.
-    set (st1 := set_size (size st - zlen dead) (set_sst m' (set_cache [] st))) in *.
-    assert (I1 : Inv cf [] st1 (tr ++ map OClose dead)).
+  - specialize (Hn eq_refl). subst c'. rewrite app_nil_r in Ec. subst dead.
+    set (st1 := set_size (size st - zlen (cache st)) (set_sst m' (set_cache [] st))) in *.
+    assert (I1 : Inv cf [] st1 (tr ++ map OClose (cache st))).
     { split.
-      - apply (core_remove [] st tr dead); subst st1; sset; auto using incl_app_l, in_map_close.
-        unfold held; sset. rewrite Ec. perm.
+      - apply (core_remove [] st tr (cache st)); subst st1; sset; auto using incl_app_l, in_map_close.
+        unfold held; sset. perm.
       - destruct R as [R1 R2 R3 R4 R5 R6]. subst st1. constructor; sset; auto.
         + lia.
         + rewrite zlen_nil. lia.
-        + intros Hp Hw. destruct (R6 Hp Hw) as [E1 E2]. rewrite E2 in Ec. subst dead. rewrite zlen_nil. split; [lia|auto]. }
+        + intros Hp Hw. destruct (R6 Hp Hw) as [E1 E2]. rewrite E2, zlen_nil. split; [lia|reflexivity]. }
     destruct I1 as [C1 R1].
     destruct (size st1 <? cmax cf) eqn:Elt.
-    + inversion H; subst; clear H. apply Z.ltb_lt in Elt.
+    + inversion H; subst g st' ob; clear H. apply Z.ltb_lt in Elt.
       splits; try (subst st1; sset; reflexivity).
       split.
-      * rewrite app_assoc. apply (core_add [] st1 (tr ++ map OClose dead)); auto using incl_app_l.
+      * rewrite app_assoc. apply (core_add [] st1 (tr ++ map OClose (cache st))); auto using incl_app_l.
         unfold held; subst st1; sset. rewrite map_app. cbn [map fst]. perm.
       * destruct R1 as [Q1 Q2 Q3 Q4 Q5 Q6]. subst st1; sset. constructor; sset; auto.
         -- lia.
         -- intros Hp Hw. destruct (Q6 Hp Hw) as [E1 E2]. lia.
     + apply Z.ltb_ge in Elt. destruct (zlen (waiters st1) + 1 >? cmaxq cf) eqn:Eq.
-      * inversion H; subst; clear H. splits; auto; try (subst st1; sset; reflexivity).
+      * inversion H; subst g st' ob; clear H. splits; auto; try (subst st1; sset; reflexivity).
         -- split; auto.
         -- subst st1; sset. lia.
-      * inversion H; subst; clear H. destruct R1 as [Q1 Q2 Q3 Q4 Q5 Q6]. subst st1; sset.
+      * inversion H; subst g st' ob; clear H. destruct R1 as [Q1 Q2 Q3 Q4 Q5 Q6]. subst st1; sset.
         splits; auto; try lia.
         split.
         -- destruct C1 as [A N Rg NN G]. constructor; auto.
         -- constructor; sset; auto.
+Qed.
+
+(* ---- Close --------------------------------------------------------------------------------------- *)
+Lemma map_fst_kill ws : map fst (kill ws) = map fst ws.
+Proof. unfold kill. rewrite map_map. apply map_ext. reflexivity. Qed.
+
+Lemma zlen_kill ws : zlen (kill ws) = zlen ws.
+Proof. unfold kill. apply zlen_map. Qed.
+
+Lemma close_pool_fields st st' ob :
+  close_pool st = (st', ob) ->
+  pstate st' = 4 /\ waiters st' = kill (waiters st) /\ lent st' = lent st /\ opening st' = opening st /\
+  pq st' = pq st /\ cache st' = cache st /\ size st' = size st /\ ncall st' = ncall st /\ nsink st' = nsink st.
+Proof.
+  unfold close_pool. destruct (flush (cache st) (sst st)) as [m' ob1]. intros H. inversion H; subst; clear H.
+  sset. splits; reflexivity.
+Qed.
+
+Lemma close_pool_core t st tr st' ob : close_pool st = (st', ob) -> Core t st tr -> Core t st' (tr ++ ob).
+Proof.
+  intros H C. destruct (close_pool_fields _ _ _ H) as (_ & _ & E1 & E2 & E3 & E4 & E5 & _ & E6).
+  apply (core_same t st tr); auto using incl_app_l. unfold held. now rewrite E1, E2, E3, E4.
+Qed.
+
+Lemma close_pool_rest cf st st' ob :
+  close_pool st = (st', ob) ->
+  size st <= cmax cf -> zlen (cache st) <= Z.max 0 (cmin cf) -> zlen (waiters st) <= Z.max 0 (cmaxq cf) ->
+  StronglySorted Z.lt (map fst (waiters st)) -> Forall (fun c => c < ncall st) (map fst (waiters st)) ->
+  Rest cf st'.
+Proof.
+  intros H R1 R2 R3 R4 R5. destruct (close_pool_fields _ _ _ H) as (Ep & Ew & _ & _ & _ & Ec & Es & En & _).
+  constructor; rewrite ?Ew, ?Ec, ?Es, ?En, ?map_fst_kill, ?zlen_kill; auto. intros Hp. contradiction.
+Qed.
+
+(* ---- _Release ------------------------------------------------------------------------------------ *)
+Lemma release_inv cf s st tr st' ob :
+  release cf s st = (st', ob) -> Inv cf [s] st tr ->
+  Inv cf [] st' (tr ++ ob) /\ lent st' = lent st /\ opening st' = opening st /\ ncall st' = ncall st /\
+  map fst (waiters st') = map fst (waiters st) /\ (pstate st = 4 -> pstate st' = 4).
+Proof.
+  unfold release. intros H [C R]. destruct R as [R1 R2 R3 R4 R5 R6].
+  destruct (pstate st =? 4) eqn:Ep.
+  { apply Z.eqb_eq in Ep. inversion H; subst st' ob; clear H. sset. splits; auto. split.
+    - apply (core_remove [s] st tr [s] []);
+        [ exact C | unfold held; sset; cbn [app]; apply Permutation_refl | sset; rewrite zlen_cons, zlen_nil; lia | reflexivity
+        | apply incl_app_l | intros x [<-|[]]; right; apply in_or_app; right; now left ].
+    - constructor; sset; auto; try lia; try (intros; contradiction). }
+  apply Z.eqb_neq in Ep.
+  destruct (sstate st s =? 4).
+  { destruct (close_pool (set_size (size st - 1) st)) as [st2 ob2] eqn:Ecp.
+    inversion H; subst st' ob; clear H.
+    destruct (close_pool_fields _ _ _ Ecp) as (Fp & Fw & Fl & Fo & Fq & Fc & Fs & Fn & Fk). sset.
+    splits; auto; try (rewrite Fw; apply map_fst_kill); try congruence. split.
+    - apply (core_same [] st2 (tr ++ ODropped s :: ob2)); auto using incl_refl.
+      change (tr ++ ODropped s :: ob2) with (tr ++ [ODropped s] ++ ob2). rewrite app_assoc.
+      apply (close_pool_core [] _ _ _ _ Ecp).
+      apply (core_remove [s] st tr [s] []);
+        [ exact C | unfold held; sset; cbn [app]; apply Permutation_refl | sset; rewrite zlen_cons, zlen_nil; lia | reflexivity
+        | apply incl_app_l | intros x [<-|[]]; right; apply in_or_app; right; now left ].
+    - assert (Rest cf st2) as [Q1 Q2 Q3 Q4 Q5 Q6] by (apply (close_pool_rest cf _ _ _ Ecp); sset; auto; lia).
+      constructor; sset; auto. }
+  destruct (waiters st) as [|w ws] eqn:Ew.
+  2:{ inversion H; subst st' ob; clear H. sset. splits; auto; try (now rewrite Ew); try contradiction. split.
+      - apply (core_same [s] st tr); sset; auto using incl_app_l. unfold held; sset. perm.
+      - constructor; sset; rewrite ?Ew; auto. }
+  destruct (size st <=? cmin cf) eqn:Emin.
+  { apply Z.leb_le in Emin. inversion H; subst st' ob; clear H. sset. splits; auto; try (now rewrite Ew); try contradiction. split.
+    - apply (core_same [s] st tr); sset; auto using incl_app_l. unfold held; sset. perm.
+    - constructor; sset; rewrite ?Ew; auto.
+      + destruct C as [A _ _ _ _]. unfold held in A. rewrite !zlen_app, zlen_cons, zlen_nil in A.
+        rewrite zlen_app, zlen_cons, zlen_nil.
+        pose proof (zlen_nonneg (map fst (lent st))). pose proof (zlen_nonneg (map fst (opening st))).
+        pose proof (zlen_nonneg (pq st)). lia.
+      + intros _ Hw. contradiction. }
+  apply Z.leb_gt in Emin. unfold discard in H. inversion H; subst st' ob; clear H. sset.
+  splits; auto; try (now rewrite Ew); try contradiction. split.
+  - apply (core_remove [s] st tr [s] []);
+      [ exact C | unfold held; sset; cbn [app]; apply Permutation_refl | sset; rewrite zlen_cons, zlen_nil; lia | reflexivity
+      | apply incl_app_l | intros x [<-|[]]; left; apply in_or_app; right; now left ].
+  - constructor; sset; rewrite ?Ew; auto; try lia. intros _ Hw. contradiction.
+Qed.
+
+(* ---- _ProcessQueue ------------------------------------------------------------------------------- *)
+Lemma pq_loop_spec ws : exists pre, let '(o, ws') := pq_loop ws in
+  ws = pre ++ (match o with Some c => (c, true) :: ws' | None => ws' end)
+  /\ Forall (fun w : Z * bool => snd w = false) pre /\ (o = None -> ws' = []).
+Proof.
+  induction ws as [|[c a] r IH]; cbn.
+  - exists []. auto.
+  - destruct a.
+    + exists []. splits; auto. discriminate.
+    + destruct (pq_loop r) as [o ws']. destruct IH as (pre & E & F & N). exists ((c, false) :: pre).
+      splits; auto. cbn. now rewrite <- E.
+Qed.
+
+Lemma ss_app_r {A} (R : A -> A -> Prop) a b : StronglySorted R (a ++ b) -> StronglySorted R b.
+Proof. induction a as [|x a IH]; cbn; intros H; auto. apply StronglySorted_inv in H as [H _]. auto. Qed.
+
+Lemma forall_app_r {A} (P : A -> Prop) a b : Forall P (a ++ b) -> Forall P b.
+Proof. intros H. apply Forall_app in H. tauto. Qed.
+
+Lemma process_queue_inv cf s st tr st' ob :
+  process_queue cf s st = (st', ob) -> Inv cf [s] st tr ->
+  Inv cf [] st' (tr ++ ob) /\ opening st' = opening st /\ ncall st' = ncall st /\ (pstate st = 4 -> pstate st' = 4).
+Proof.
+  unfold process_queue. intros H I. destruct (waiters st) as [|w0 ws0] eqn:Ew.
+  { destruct (release_inv _ _ _ _ _ _ H I) as (I' & _ & Eo & En & _ & Ep). auto. }
+  rewrite <- Ew in H.
+  pose proof (pq_loop_spec (waiters st)) as S. destruct (pq_loop (waiters st)) as [o ws'].
+  destruct S as (pre & E & F & N). destruct I as [C [R1 R2 R3 R4 R5 R6]].
+  assert (Hlen : zlen ws' <= zlen (waiters st)).
+  { rewrite E, zlen_app. pose proof (zlen_nonneg pre). destruct o; [rewrite zlen_cons|]; lia. }
+  assert (Hss : StronglySorted Z.lt (map fst ws')).
+  { rewrite E, map_app in R4. apply ss_app_r in R4. destruct o; auto. cbn in R4. now apply StronglySorted_inv in R4. }
+  assert (Hwb : Forall (fun c => c < ncall st) (map fst ws')).
+  { rewrite E, map_app in R5. apply forall_app_r in R5. destruct o; auto. cbn in R5. now inversion R5. }
+  destruct o as [c|].
+  - inversion H; subst st' ob; clear H. sset. splits; auto. split.
+    + apply (core_same [s] st tr); sset; auto using incl_app_l. unfold held; sset. rewrite map_app. cbn [map fst]. perm.
+    + constructor; sset; auto; try lia. intros Hp Hw. apply R6; auto. rewrite Ew. discriminate.
+  - specialize (N eq_refl). subst ws'.
+    set (st1 := set_gq (zlen (@nil (Z * bool))) (set_waiters [] st)) in *.
+    assert (I1 : Inv cf [s] st1 tr).
+    { split.
+      - apply (core_same [s] st tr); subst st1; sset; auto using incl_refl.
+      - subst st1. constructor; sset; auto; try (rewrite zlen_nil; lia); try (cbn; constructor); try (intros _ Hw; contradiction). }
+    destruct (release_inv _ _ _ _ _ _ H I1) as (I' & _ & Eo & En & _ & Ep). subst st1; sset. auto.
+Qed.
+
+(* ---- one step preserves the invariant ------------------------------------------------------------- *)
+Lemma rest_ext cf st st' :
+  Rest cf st -> size st' = size st -> cache st' = cache st -> waiters st' = waiters st ->
+  ncall st' = ncall st -> pstate st' = pstate st -> Rest cf st'.
+Proof. intros [R1 R2 R3 R4 R5 R6] E1 E2 E3 E4 E5. constructor; rewrite ?E1, ?E2, ?E3, ?E4, ?E5; auto. Qed.
+
+Lemma ss_snoc l c : StronglySorted Z.lt l -> Forall (fun x => x < c) l -> StronglySorted Z.lt (l ++ [c]).
+Proof.
+  induction l as [|x l IH]; cbn; intros S F.
+  - constructor; constructor.
+  - apply StronglySorted_inv in S as [S Fx]. inversion F; subst. constructor; auto.
+    apply Forall_app. split; auto.
+Qed.
+
+Lemma map_fst_mark_dead c ws : map fst (mark_dead c ws) = map fst ws.
+Proof.
+  unfold mark_dead. rewrite map_map. apply map_ext. intros [x a]. cbn. destruct ((x =? c) && a); reflexivity.
+Qed.
+
+Lemma open_result_inv cf st tr st' ob :
+  open_result st = (st', ob) -> Inv cf [] st tr -> Inv cf [] st' (tr ++ ob).
+Proof.
+  unfold open_result. intros H [C R]. destruct (pstate st =? 4) eqn:Ep; inversion H; subst st' ob; clear H.
+  - split; [apply (core_tr _ _ _ _ C), incl_app_l|auto].
+  - apply Z.eqb_neq in Ep. split.
+    + apply (core_same [] st tr); sset; auto using incl_app_l.
+    + destruct R as [R1 R2 R3 R4 R5 R6]. constructor; sset; auto.
+Qed.
+
+Lemma app_assoc3 {A} (a b c : list A) : a ++ b ++ c = (a ++ b) ++ c.
+Proof. apply app_assoc. Qed.
+
+Lemma step_inv cf st tr l st' ob :
+  step cf st l = (st', ob) -> Inv cf [] st tr -> Inv cf [] st' (tr ++ ob).
+Proof.
+  intros H I. destruct l as [|s|c|c|k|s v| |]; cbn [step] in H.
+  - (* Req *)
+    set (c := ncall st) in *. set (st0 := set_ncall (c + 1) st) in *.
+    assert (I0 : Inv cf [] st0 tr).
+    { destruct I as [C [R1 R2 R3 R4 R5 R6]]. split.
+      - apply (core_same [] st tr); subst st0; sset; auto using incl_refl.
+      - subst st0. constructor; sset; auto. eapply Forall_impl; [|exact R5]. cbn. intros. subst c. lia. }
+    destruct (get cf (Some c) st0) as [[g st1] ob1] eqn:Eg.
+    destruct (get_inv _ _ _ _ _ _ _ Eg I0) as (Ew & En & Ep & El & Eq & G).
+    destruct g as [s| | |].
+    + destruct G as ([C1 R1] & Eo & _). inversion H; subst st' ob; clear H. split.
+      * rewrite app_assoc. apply (core_same [s] st1 (tr ++ ob1)); sset; auto using incl_app_l.
+        unfold held; sset. rewrite map_app. cbn [map fst]. perm.
+      * apply (rest_ext cf st1); auto.
+    + destruct G as (I1 & Eo). inversion H; subst st' ob; clear H. exact I1.
+    + destruct G as ([C1 R1] & Eo & Es & Ec & Eq'). inversion H; subst st' ob; clear H. split.
+      * apply (core_same [] st1 (tr ++ ob1)); sset; auto using incl_refl.
+      * destruct I as [_ [Q1 Q2 Q3 Q4 Q5 Q6]]. destruct R1 as [P1 P2 P3 P4 P5 P6].
+        subst st0; sset. constructor; sset; auto.
+        -- rewrite zlen_app, zlen_cons, zlen_nil. rewrite Ew. pose proof (zlen_nonneg (waiters st)). lia.
+        -- rewrite Ew, map_app. cbn [map fst]. apply ss_snoc; auto.
+        -- rewrite Ew, map_app, En. sset. apply Forall_app. split.
+           ++ eapply Forall_impl; [|exact Q5]. cbn. intros. subst c. lia.
+           ++ constructor; [cbn; subst c; lia|constructor].
+    + destruct G as ([C1 R1] & Eo & _). inversion H; subst st' ob; clear H. split.
+      * rewrite app_assoc. apply (core_same [] st1 (tr ++ ob1)); sset; auto using incl_app_l.
+      * apply (rest_ext cf st1); auto.
+  - (* OpenDone *)
+    destruct (extract (fun e : Z * option Z => fst e =? s) (opening st)) as [[[s' who] op']|] eqn:Ex.
+    2:{ inversion H; subst. rewrite app_nil_r. exact I. }
+    destruct (extract_spec _ _ _ _ Ex) as (l1 & l2 & E1 & E2 & Ps & _). cbn in Ps. apply Z.eqb_eq in Ps. subst s'.
+    destruct I as [C R].
+    destruct who as [c|].
+    + inversion H; subst st' ob; clear H. split.
+      * apply (core_same [] st tr); sset; auto using incl_app_l. unfold held; sset.
+        rewrite E1, E2, !map_app. cbn [map fst]. perm.
+      * apply (rest_ext cf st); auto.
+    + destruct (release cf s (set_opening op' st)) as [st2 ob2] eqn:Er.
+      destruct (open_result st2) as [st3 ob3] eqn:Eo. inversion H; subst st' ob; clear H.
+      assert (I1 : Inv cf [s] (set_opening op' st) tr).
+      { split.
+        - apply (core_same [] st tr); sset; auto using incl_refl. unfold held; sset.
+          rewrite E1, E2, !map_app. cbn [map fst]. perm.
+        - apply (rest_ext cf st); auto. }
+      destruct (release_inv _ _ _ _ _ _ Er I1) as (I2 & _).
+      rewrite app_assoc. apply (open_result_inv _ _ _ _ _ Eo I2).
+  - (* Resp *)
+    destruct (extract (fun e : Z * Z => snd e =? c) (lent st)) as [[[s c'] le']|] eqn:Ex.
+    2:{ inversion H; subst. rewrite app_nil_r. exact I. }
+    destruct (extract_spec _ _ _ _ Ex) as (l1 & l2 & E1 & E2 & _ & _).
+    destruct I as [C R].
+    destruct (release cf s (set_lent le' st)) as [st1 ob1] eqn:Er. inversion H; subst st' ob; clear H.
+    assert (I1 : Inv cf [s] (set_lent le' st) tr).
+    { split.
+      - apply (core_same [] st tr); sset; auto using incl_refl. unfold held; sset.
+        rewrite E1, E2, !map_app. cbn [map fst]. perm.
+      - apply (rest_ext cf st); auto. }
+    destruct (release_inv _ _ _ _ _ _ Er I1) as ([C2 R2] & _). split; auto.
+    rewrite app_assoc. apply (core_tr _ _ _ _ C2), incl_app_l.
+  - (* Expire *)
+    destruct (existsb _ (waiters st)) eqn:Ee.
+    2:{ inversion H; subst. rewrite app_nil_r. exact I. }
+    inversion H; subst st' ob; clear H. destruct I as [C [R1 R2 R3 R4 R5 R6]]. split.
+    + apply (core_same [] st tr); sset; auto using incl_app_l.
+    + constructor; sset; rewrite ?map_fst_mark_dead; auto.
+      * unfold mark_dead. now rewrite zlen_map.
+      * intros Hp Hw. apply R6; auto. intros E. apply Hw. now rewrite E.
+  - (* PQ *)
+    destruct (extract_nth k (pq st)) as [[s pq']|] eqn:Ex.
+    2:{ inversion H; subst. rewrite app_nil_r. exact I. }
+    destruct (extract_nth_spec _ _ _ _ Ex) as (l1 & l2 & E1 & E2 & _).
+    destruct I as [C R].
+    assert (I1 : Inv cf [s] (set_pq pq' st) tr).
+    { split.
+      - apply (core_same [] st tr); sset; auto using incl_refl. unfold held; sset. rewrite E1, E2. perm.
+      - apply (rest_ext cf st); auto. }
+    destruct (process_queue_inv _ _ _ _ _ _ H I1) as (I2 & _). exact I2.
+  - (* SinkState *)
+    inversion H; subst st' ob; clear H. rewrite app_nil_r. destruct I as [C R]. split.
+    + apply (core_same [] st tr); sset; auto using incl_refl.
+    + apply (rest_ext cf st); auto.
+  - (* ClosePool *)
+    destruct I as [C [R1 R2 R3 R4 R5 R6]]. split.
+    + apply (close_pool_core _ _ _ _ _ H C).
+    + apply (close_pool_rest cf _ _ _ H); auto.
+  - (* OpenPool *)
+    destruct (get cf None st) as [[g st1] ob1] eqn:Eg.
+    destruct (get_inv _ _ _ _ _ _ _ Eg I) as (Ew & En & Ep & El & Eq & G).
+    destruct g as [s| | |].
+    + destruct G as (I1 & _). destruct (release cf s st1) as [st2 ob2] eqn:Er.
+      destruct (open_result st2) as [st3 ob3] eqn:Eo. inversion H; subst st' ob; clear H.
+      destruct (release_inv _ _ _ _ _ _ Er I1) as (I2 & _).
+      rewrite app_assoc3, app_assoc. apply (open_result_inv _ _ _ _ _ Eo I2).
+    + destruct G as (I1 & _). inversion H; subst st' ob; clear H. exact I1.
+    + destruct G as ([C1 R1] & _). destruct (open_result (release_noop st1)) as [st3 ob3] eqn:Eo.
+      inversion H; subst st' ob; clear H. rewrite app_assoc. apply (open_result_inv _ _ _ _ _ Eo). split.
+      * apply (core_same [] st1 (tr ++ ob1)); sset; auto using incl_refl.
+      * apply (rest_ext cf st1); auto.
+    + destruct G as ([C1 R1] & _). destruct (open_result (release_noop st1)) as [st3 ob3] eqn:Eo.
+      inversion H; subst st' ob; clear H. rewrite app_assoc. apply (open_result_inv _ _ _ _ _ Eo). split.
+      * apply (core_same [] st1 (tr ++ ob1)); sset; auto using incl_refl.
+      * apply (rest_ext cf st1); auto.
+Qed.
+
+(* ---- every reachable state ------------------------------------------------------------------------ *)
+Lemma init_inv cf : 0 <= cmax cf -> Inv cf [] init [].
+Proof.
+  intros H. split.
+  - constructor; cbn; auto; try constructor; try reflexivity; try lia.
+  - constructor; cbn; auto; try constructor; try lia; try (intros _ Hw; contradiction).
+Qed.
+
+Lemma run_inv cf ls : forall st tr st' ob,
+  run cf st ls = (st', ob) -> Inv cf [] st tr -> Inv cf [] st' (tr ++ ob).
+Proof.
+  induction ls as [|l r IH]; intros st tr st' ob H I; cbn in H.
+  - inversion H; subst. now rewrite app_nil_r.
+  - destruct (step cf st l) as [st1 ob1] eqn:E1. destruct (run cf st1 r) as [st2 ob2] eqn:E2.
+    inversion H; subst st' ob; clear H. rewrite app_assoc. eapply IH; eauto. eapply step_inv; eauto.
+Qed.
+
+Lemma reach_inv cf ls st tr : 0 <= cmax cf -> reach cf ls = (st, tr) -> Inv cf [] st tr.
+Proof. intros Hm H. apply (run_inv cf ls init [] st tr H (init_inv cf Hm)). Qed.
+
+Lemma run_app cf a : forall b st,
+  run cf st (a ++ b) = let '(st1, o1) := run cf st a in let '(st2, o2) := run cf st1 b in (st2, o1 ++ o2).
+Proof.
+  induction a as [|l a IH]; intros b st; cbn.
+  - destruct (run cf st b); reflexivity.
+  - destruct (step cf st l) as [st1 ob1]. rewrite IH. destruct (run cf st1 a) as [st2 ob2].
+    destruct (run cf st2 b) as [st3 ob3]. now rewrite app_assoc.
 Qed.
